@@ -52,14 +52,34 @@ def load_driver(prop):
 # --------------------------------------------------------------------------- shard
 
 
+W5_KIND = "__w5__"
+
+
+def all_cases(driver, tier, seed):
+    """The driver's cases, plus (thorough tier, drivers naming ambient monitors in
+    W5_MONITORS) one case that runs the repository's own test suite under those monitors."""
+    yield from driver.gen_cases(tier, seed)
+    mons = getattr(driver, "W5_MONITORS", None)
+    if mons and tier in getattr(driver, "W5_TIERS", ("thorough",)):
+        yield {"id": "w5", "kind": W5_KIND, "monitors": list(mons)}
+
+
+def dispatch_case(driver, case):
+    if case.get("kind") == W5_KIND:
+        from vdrive import w5
+
+        return w5.run_repo_tests(case["monitors"])
+    return driver.run_case(case)
+
+
 def run_one(driver, case, timeout):
     """Run one case under a fresh context and the watchdog; never raises."""
     cx = base.new_ctx()
     out = {"id": case.get("id"), "status": "held", "nontrivial": False, "fingerprint": None}
     t0 = time.time()
     try:
-        with base.watchdog(timeout):
-            res = driver.run_case(case) or {}
+        with base.watchdog(max(timeout, 1200) if case.get("kind") == W5_KIND else timeout):
+            res = dispatch_case(driver, case) or {}
         out["nontrivial"] = bool(res.get("nontrivial"))
         out["fingerprint"] = res.get("fingerprint")
         if res.get("skip"):
@@ -108,7 +128,7 @@ def shard_main(args):
         driver.shard_setup(tier)
     deadline = time.time() + args.budget if args.budget else None
     truncated = 0
-    for idx, case in enumerate(driver.gen_cases(tier, seed)):
+    for idx, case in enumerate(all_cases(driver, tier, seed)):
         if idx % args.nchunks != args.chunk:
             continue
         if deadline and time.time() > deadline:
